@@ -10,7 +10,7 @@
    The code before the fixes is refuted by [turn_structure_refuted_unfixed], [game_hangs_refuted_unfixed] and
    [first_player_refuted_unfixed]. *)
 From Common Require Import Prelude.
-From C06 Require Import Model Lemmas Turns Ends Restart.
+From C06 Require Import Model Lemmas Turns Ends Slam Restart Outer Tilt.
 Open Scope Z_scope.
 
 (* every trace is accepted by the recogniser of prefixes of the lifecycle grammar (Lemmas.v, [gstep]):
@@ -213,3 +213,159 @@ Example new_game_example :
   length (games boot [(ex_cfg, ins1); (mkcfg 3 1 3 true false, repeat (mkin [] [] []) 8)]) = 30%nat.
 Proof. vm_compute. repeat split; reflexivity. Qed.
 Print Assumptions new_game_example.
+
+(* ------------------------------------------------------------------------------------------------------------- *)
+(* The surroundings of the coroutine (Outer.v): the stop procedure of the game mode (Mode.stop -> mode_game_stopping ->
+   Game._stop_game_modes waits for all game modes -> AsyncMode._stopped cancels the task, Game.mode_stop clears
+   machine.game) under external stop requests at every quiescent suspension point, and a further game mode whose own stop
+   can be held by a handler.  The correspondence run evaluates [orun] = [ogames boot]. *)
+
+(* without [Aux] operations the outer model is the coroutine model: every theorem above is about the same runs *)
+Theorem outer_refines_model : forall c s i, plain_in i = true -> (pc s = AtEv GEd -> drainh s = false) ->
+  ostep c (s, x0) i = ((fst (step c s i), x0), map Core (snd (step c s i))).
+Proof. exact ostep_plain. Qed.
+Print Assumptions outer_refines_model.
+
+(* "... after the game has ended no game is active ...", for a game that is stopped from OUTSIDE (service mode entered,
+   modes.game.stop()) at any suspension point, also inside held lifecycle queue events: in the step in which the stop of the
+   game mode completes, only observations of operations are output — no lifecycle event —, machine.game is cleared, the
+   ball_drain handler is gone and no game mode is left; and from then on, whatever arrives (releases of the queues the
+   stopped coroutine was waiting in included), nothing is output and nothing changes *)
+Theorem stopped_game_posts_nothing : forall c s x i, stops_here c s x i = true ->
+  stopped_result (live_step c s x i) /\
+  forall more, osteps c (fst (live_step c s x i)) more = (fst (live_step c s x i), []).
+Proof. exact stopped_game_posts_nothing_l. Qed.
+Print Assumptions stopped_game_posts_nothing.
+
+Example stopped_example :
+  (* a 1-ball game; the game mode is stopped while a handler holds ball_ending (second batch of the hold); the handler
+     finishes, further drains arrive: the trace ends with the stop marker, ball_ended is never posted *)
+  let c := mkcfg 1 1 3 true false in
+  let ins := repeat calm 11 ++ [mkin [] [[]; [Aux StopGame]; [Drain 1]] []] in
+  let r := osteps c (init, x0) (ins ++ repeat calm 5) in
+  stops_here c (fst (fst (osteps c (init, x0) (repeat calm 11)))) x0 (mkin [] [[]; [Aux StopGame]; [Drain 1]] []) = true /\
+  pc (fst (fst (osteps c (init, x0) (repeat calm 11)))) = AtEv BEg /\
+  over (fst r) = true /\ last (snd r) (Core Fin) = Killed /\
+  forallb (fun o => match o with Core (Ev BEd _ _ _ _ _) => false | _ => true end) (snd r) = true.
+Proof. vm_compute. repeat split; reflexivity. Qed.
+Print Assumptions stopped_example.
+
+(* machine.game is cleared only when every game mode has stopped and no stop of the game mode is pending: in every state
+   reachable from the start of a game by any inputs *)
+Theorem game_cleared_only_when_modes_stopped : forall c s ins,
+  let sx := fst (osteps c (start_game s, x0) ins) in
+  active (fst sx) = false -> md (snd sx) = MOff /\ gstop (snd sx) = false.
+Proof. exact game_cleared_only_when_modes_stopped_l. Qed.
+Print Assumptions game_cleared_only_when_modes_stopped.
+
+Example modes_example :
+  (* gm0 starts at ball_ended, gets its stop event at player_turn_will_end and a handler holds that stop; the game ends:
+     game_ended is posted, but machine.game stays set while the game mode waits for gm0 (idle observation); the release
+     completes the stop: end marker, machine.game cleared *)
+  let c := mkcfg 1 1 3 true false in
+  let ins := repeat calm 12 ++ [mkin [Aux MStart] [] []; mkin [Aux (MStop true)] [] []] ++ repeat calm 5 in
+  let r1 := osteps c (init, x0) ins in
+  let r2 := osteps c (init, x0) (ins ++ [mkin [] [] []; mkin [] [] [Aux MRelease]]) in
+  pc (fst (fst r1)) = Done /\ active (fst (fst r1)) = true /\ snd (fst r1) = mkx MHeld true /\
+  existsb (fun o => match o with Core (Ev GEd _ _ _ _ _) => true | _ => false end) (snd r1) = true /\
+  existsb (fun o => match o with Core Fin => true | _ => false end) (snd r1) = false /\
+  over (fst r2) = true /\ active (fst (fst r2)) = false /\ last (snd r2) Killed = Core Fin.
+Proof. vm_compute. repeat split; reflexivity. Qed.
+Print Assumptions modes_example.
+
+(* "... and a new one can start", after an external stop: the state the stop leaves behind is, after the re-initialisation
+   at the top of Game._run, the initial state (on the playfield as it is) — in particular the ball_drain handler of the
+   stopped game is gone — so the next game behaves like a first game.  Hypotheses: no player_adding handler that holds
+   queues ([hold_adds] false; as for [new_game_starts_clean]) and [Rest] (no player-add chain in flight at the beginning of
+   the step, which [rest_at_end] shows for every state at the end of a step of a game) *)
+Theorem new_game_after_stop : forall c s x i, hold_adds c = false -> Rest c s -> stops_here c s x i = true ->
+  let s' := fst (fst (live_step c s x i)) in
+  start_game s' = set_pf (pf s') init /\
+  forall c2 ins2, osteps c2 (start_game s', x0) ins2 = osteps c2 (set_pf (pf s') init, x0) ins2.
+Proof. exact new_game_after_stop_l. Qed.
+Print Assumptions new_game_after_stop.
+
+Example new_game_after_stop_example :
+  (* stopped while the ball is live (drain handler registered, one ball on the playfield); the second game plays *)
+  let c := mkcfg 1 1 3 true false in
+  let tr := ogames boot [(c, repeat calm 9 ++ [mkin [] [] [Aux StopGame]]); (c, repeat calm 6 ++ repeat (mkin [] [] [Drain 2]) 14)] in
+  existsb (fun o => match o with Killed => true | _ => false end) tr = true /\ last tr Killed = Core Fin /\
+  Rest c (fst (fst (osteps c (init, x0) (repeat calm 9)))) /\ drainh (fst (fst (osteps c (init, x0) (repeat calm 9)))) = true.
+Proof. vm_compute. repeat split; reflexivity. Qed.
+Print Assumptions new_game_after_stop_example.
+
+(* the trace of a game up to an external stop is a prefix of a trace of the coroutine model (of the same history with the
+   last input cut where the stop completed); hence every statement above that is the acceptance of the trace by a monitor
+   (grammar, bounds, turn structure, ball-end causes, game end, extra balls) holds for stopped games up to the stop *)
+Theorem stopped_trace_is_trace_prefix : forall c ins x i, stops_here c (final c ins) x i = true ->
+  exists o1 i' rest,
+    snd (live_step c (final c ins) x i) = map Core o1 ++ [Killed] /\
+    trace c (ins ++ [i']) = (trace c ins ++ o1) ++ rest.
+Proof. exact stopped_trace_prefix_l. Qed.
+Print Assumptions stopped_trace_is_trace_prefix.
+
+Theorem stopped_trace_in_grammar : forall c ins x i, stops_here c (final c ins) x i = true ->
+  exists o1, snd (live_step c (final c ins) x i) = map Core o1 ++ [Killed] /\ in_grammar (trace c ins ++ o1).
+Proof. exact stopped_trace_in_grammar_l. Qed.
+Print Assumptions stopped_trace_in_grammar.
+
+(* ------------------------------------------------------------------------------------------------------------- *)
+(* The tilt mode as the source of tilt / slam-tilt requests (Tilt.v; request-level correspondence on real devices) *)
+
+(* "... slam-tilt requests arriving at any point of the lifecycle": a slam-tilt request that reaches a game is never
+   dropped — slam_tilted is set whether the ball is already tilted, the game is ending, or no ball is running — *)
+Theorem slam_request_registers : forall t, t_active t = true -> t_slam (slam_req t) = true.
+Proof. exact slam_req_registers_l. Qed.
+Print Assumptions slam_request_registers.
+
+(* and requests the end of the ball unless the ball is already tilted or the game is ending *)
+Theorem slam_request_ends_ball : forall t, t_active t = true -> t_tilted t = false -> t_ending t = false ->
+  t_endev (slam_req t) = true /\ t_tilted (slam_req t) = true.
+Proof. exact slam_req_ends_ball_l. Qed.
+Print Assumptions slam_request_ends_ball.
+
+(* no request of the tilt mode clears slam_tilted, tilted or a requested ball end, or touches ending *)
+Theorem tilt_requests_monotone : forall t w ok,
+  let P := fun t' : tg => (t_slam t = true -> t_slam t' = true) /\ (t_tilted t = true -> t_tilted t' = true) /\
+                          (t_endev t = true -> t_endev t' = true) /\ t_ending t' = t_ending t in
+  P (tilt_req t) /\ P (slam_req t) /\ P (warn_req w ok t).
+Proof. exact reqs_monotone_l. Qed.
+Print Assumptions tilt_requests_monotone.
+
+(* the operation SlamTilt of the coroutine model is the slam-tilt request of the tilt mode on a game that is not tilted;
+   with [game_ends_after_last_turn] / [extra_balls_played_eq_awarded]: a registered slam tilt ends the game after the turn *)
+Theorem slam_request_is_core_op : forall v c s,
+  let s' := op_st v c s SlamTilt in
+  t_slam (slam_req (tg_of_st s)) = slam s' /\ t_endev (slam_req (tg_of_st s)) = endev s' /\
+  t_ending (slam_req (tg_of_st s)) = ending s'.
+Proof. exact slam_req_is_core_op_l. Qed.
+Print Assumptions slam_request_is_core_op.
+
+Example tilt_example :
+  (* a slam tilt on a ball that is already tilted: registered, no second end request needed; the second warning tilts *)
+  let t := mktg true true true false false true 0 in
+  slam_req t = mktg true true true false true true 0 /\
+  warn_req 2 true (mktg true true false false false false 1) = mktg true true true false false true 2 /\
+  warn_req 2 false (mktg true true false false false false 1) = mktg true true false false false false 1.
+Proof. vm_compute. repeat split; reflexivity. Qed.
+Print Assumptions tilt_example.
+
+(* "... slam-tilt requests arriving at any point of the lifecycle" end the game (Slam.v, monitor [sstep]): over every trace,
+   after the observation of a slam-tilt request (operation code 3 / 4) no extra ball is started, and once the turn the request
+   fell into has ended (player_turn_ended seen after the request, or the request was issued by a handler of
+   player_turn_ended) no further turn starts.  (A request before the first turn does not prevent that turn: Game._run enters
+   its loop while [ending] is false; the game ends after it.) *)
+Theorem slam_tilt_ends_game : forall c ins, slam_ends_game_ok (trace c ins).
+Proof. exact slam_ends_game_l. Qed.
+Print Assumptions slam_tilt_ends_game.
+
+Example slam_example :
+  (* 3 balls per game; an extra ball is awarded and the machine is slam tilted during ball 1: the extra ball is not played,
+     no second turn starts, the game ends.  The monitor rejects a turn start after a slam-tilted turn and an extra ball *)
+  let c := mkcfg 3 2 3 true false in
+  let ins := repeat calm 9 ++ [mkin [] [] [AwardExtra; SlamTilt]] ++ repeat calm 12 in
+  (exists m, mrun sstep sm0 (trace c ins) = Some m /\ ssl m = true /\ sfin m = true) /\ pc (final c ins) = Done /\
+  mrun sstep sm0 [OpObs 3 0; Ev PTEd 1 1 false 0 1; Ev PTWS 1 1 false 0 1] = None /\
+  mrun sstep sm0 [OpObs 4 0; Ev BWS 1 1 true 0 1] = None.
+Proof. split; [eexists; vm_compute; repeat split; reflexivity | vm_compute; repeat split; reflexivity]. Qed.
+Print Assumptions slam_example.
